@@ -16,6 +16,7 @@ func init() {
 	vRegister("VH_C03_ServerEnc", VH_C03_ServerEnc)
 	vRegister("VH_C03_ClientGlue", VH_C03_ClientGlue)
 	vRegister("VH_C03_ServerGlue", VH_C03_ServerGlue)
+	vRegister("VH_C03_ClientResume", VH_C03_ClientResume)
 }
 
 // The handshake is decided piecewise. performFullAuthentication and
@@ -193,9 +194,9 @@ func vhEnc(isClient bool) {
 // configuration and arbitrary client bitmasks.
 //
 //verif:unwind 6
-func VH_C03_ServerAuth() { vhServerAuth(false) }
+func VH_C03_ServerAuth() { vhServerAuth(nil) }
 
-func vhServerAuth(rounds bool) {
+func vhServerAuth(rounds func(cfg *SecurityConfig, io_ *vhIO, asked []int, err error)) {
 	st := stream.NewStream(&vhConn{})
 	io_ := &vhIO{st: st}
 	defer vhInstall(io_)()
@@ -237,8 +238,8 @@ func vhServerAuth(rounds bool) {
 	} else {
 		vCover("authentication-phase-succeeds")
 	}
-	if rounds {
-		vhCheckServerRounds(cfg, io_, asked, err)
+	if rounds != nil {
+		rounds(cfg, io_, asked, err)
 		return
 	}
 	if err != nil {
@@ -406,3 +407,11 @@ func VH_C03_ServerGlue() {
 	}
 	vAssert(len(io_.sent) == 2, "server-sends-its-ad-then-the-post-auth-ad")
 }
+
+// VH_C03_ClientResume: the resumption path is a handshake too: a client whose own
+// policy requires encryption or integrity never gets a successful resumeSession on
+// a plaintext stream, whatever the cached entry holds and whatever the server
+// answers (see VH_C06_ClientResume, which carries the assertion).
+//
+//verif:unwind 6
+func VH_C03_ClientResume() { VH_C06_ClientResume() }
